@@ -2,7 +2,7 @@
 (tracklib/algo/mapping.py mapOnNetwork / __mapOnNetwork / __distToNode / __projOnTrack; the candidate edge
 numbers come from the real spatial index and the decoded indices from the real HMM — both are parameters of
 the model, which covers the candidate construction, the flag state, the inference column and the track)."""
-import json, math
+import json, math, os, tempfile
 from fractions import Fraction as F
 from engine import Prop, fbits, bitsf, close, err_kind
 from props.c20 import fr, seg_d2, segments, degenerate
@@ -53,10 +53,20 @@ class P(Prop):
     def setup(self):
         import tracklib
         from tracklib import Obs, ObsTime, ENUCoords, Track, TrackCollection, Network, Node, Edge, SpatialIndex, computeAbsCurv
+        from tracklib import NetworkReader, NetworkFormat
         from tracklib.algo import mapping
         self.tl = dict(Obs=Obs, ObsTime=ObsTime, E=ENUCoords, Track=Track, Network=Network, Node=Node, Edge=Edge,
-                       SI=SpatialIndex, curv=computeAbsCurv, mapping=mapping, TC=TrackCollection)
+                       SI=SpatialIndex, curv=computeAbsCurv, mapping=mapping, TC=TrackCollection,
+                       NR=NetworkReader, NF=NetworkFormat)
         self._cache = {}
+        # classes of findings listed for this property (known_findings.json is read, never written): inputs of a class that
+        # is not listed are generated only where they cannot reach the defect
+        self.listed = set()
+        try:
+            with open(os.path.join(os.path.dirname(os.path.dirname(os.path.dirname(os.path.abspath(__file__)))), "known_findings.json")) as fh:
+                self.listed = {e.get("class") for e in json.load(fh).get("entries", []) if e.get("property") == "C10" and e.get("status") == "finding"}
+        except Exception:
+            pass
 
     # ------------------------------------------------------------------ generators
     def exhaustive_scopes(self, tier):
@@ -76,6 +86,10 @@ class P(Prop):
         n = 15000 if tier == "thorough" else 3000
         for k in range(n):
             out.append(self.random_case(rng, ["grid", "random", "decimal"][k % 3]))
+        # networks as real data delivers them (merged nodes, long / repeated / zero-length geometries, loops, parallel and
+        # one-way edges, components), through every construction path
+        for k in range(15000 if tier == "thorough" else 3000):
+            out.append(self.real_case(rng))
         for k in range(40 if tier == "thorough" else 6):
             c = self.random_case(rng, "grid")
             c["track"] = c["track"][:2] + [[c["track"][0][0] + 9000.0, c["track"][0][1] + 500.0], [c["track"][0][0] + 19000.0, c["track"][0][1]]]
@@ -83,7 +97,7 @@ class P(Prop):
             out.append(c)
         # sessions: collections of several tracks, several calls on the same objects, re-matched tracks
         for k in range(6000 if tier == "thorough" else 900):
-            out.append(self.random_session(rng, ["grid", "random", "decimal"][k % 3]))
+            out.append(self.random_session(rng, ["grid", "random", "decimal", "real"][k % 4]))
         return out
 
     def coord(self, rng, stream):
@@ -148,30 +162,128 @@ class P(Prop):
         eids = rng.sample(range(1, 60), len(edges))
         for e, i in zip(edges, eids):
             e["id"] = i
-        xs = [p[0] for e in edges for p in e["g"]]
-        ys = [p[1] for e in edges for p in e["g"]]
-        ax, ay = max(xs) - min(xs), max(ys) - min(ys)
-        margin = rng.choice([0.05, 0.15, 0.3, 0.6])
-        # cell sizes: keep at least one cell per side (the index divides the extent by the cell size)
-        ex, ey = max(ax, 1e-9) * (1 + margin), max(ay, 1e-9) * (1 + margin)
-        if ax == 0 or ay == 0:
-            # degenerate extent in one direction: the index cannot be built with explicit cell sizes; widen with an oblique stub edge
-            edges.append({"s": 900, "t": 901, "id": 99, "g": [[min(xs), min(ys)], [min(xs) + 2.0, min(ys) + 1.0]]})
-            xs += [min(xs) + 2.0]; ys += [min(ys) + 1.0]
-            ax, ay = max(xs) - min(xs), max(ys) - min(ys)
-            ex, ey = ax * (1 + margin), ay * (1 + margin)
-        res = [min(rng.choice([1.0, 2.0, 3.0, 5.0, 10.0]), ex), min(rng.choice([1.0, 2.0, 3.0, 5.0, 10.0]), ey)]
-        if rng.random() < 0.1 and 0.02 < ax / ay < 50:
-            res = None
+        res, margin, ax = self.index_params(rng, edges)
         radius = rng.choice([0.5, 1.0, 2.0, 3.0, 5.5, 10.0])
         track = self.gen_track(rng, stream, edges, radius, ax)
         return {"kind": "net", "stream": stream, "edges": edges, "res": res, "margin": margin, "track": track,
                 "radius": radius, "noise": rng.choice([1.0, 5.0, 50.0])}
 
-    def gen_track(self, rng, stream, edges, radius, ax, home=None, avoid_vertical=False):
+    def index_params(self, rng, edges, upto=None):
+        """cell sizes and margin of the spatial index for these geometries (the first `upto` of them when given: the index of
+        the `late` construction path is built before the other edges exist); widens a flat extent with an oblique stub edge
+        (the index cannot be built on a flat extent: C08's domain)"""
+        first = edges if upto is None else edges[:upto]
+        xs = [p[0] for e in first for p in e["g"]]
+        ys = [p[1] for e in first for p in e["g"]]
+        ax, ay = max(xs) - min(xs), max(ys) - min(ys)
+        margin = rng.choice([0.05, 0.15, 0.3, 0.6])
+        if ax == 0 or ay == 0:
+            edges.insert(len(first), {"s": 900, "t": 901, "id": 99, "g": [[min(xs), min(ys)], [min(xs) + 2.0, min(ys) + 1.0]]})
+            xs += [min(xs) + 2.0]; ys += [min(ys) + 1.0]
+            ax, ay = max(xs) - min(xs), max(ys) - min(ys)
+        ex, ey = ax * (1 + margin), ay * (1 + margin)
+        res = [min(rng.choice([1.0, 2.0, 3.0, 5.0, 10.0]), ex), min(rng.choice([1.0, 2.0, 3.0, 5.0, 10.0]), ey)]
+        if rng.random() < 0.1 and 0.02 < ax / ay < 50:
+            res = None
+        return res, margin, ax
+
+    def real_case(self, rng):
+        """a network as real data delivers it: node ids shared by edges whose end vertices differ slightly (tolerance-merged
+        nodes, or a separate node table), edges with many vertices, repeated vertices, zero-length edges, loops, parallel edges,
+        one-way edges, disconnected components; built by hand, from a node table, through NetworkReader, or with edges added
+        after the index exists; ids integers or strings"""
+        dec = rng.random() < 0.6
+        c = (lambda lo, hi: round(rng.uniform(lo, hi), 2)) if dec else (lambda lo, hi: float(rng.randint(int(lo), int(hi))))
+        nodes = {}
+        ncomp = 2 if rng.random() < 0.25 else 1
+        for k in range(rng.randint(3, 7)):
+            off = 0.0 if (ncomp == 1 or k % 2 == 0) else 40.0          # second component far to the east
+            nodes[10 + k] = (c(0, 14) + off, c(0, 14))
+        ids = list(nodes)
+        merged = rng.random() < 0.6
+        edges = []
+        pairs = []
+        for _ in range(rng.randint(2, 7)):
+            r = rng.random()
+            if r < 0.12:
+                a = b = rng.choice(ids)                                 # loop
+            elif r < 0.27 and pairs:
+                a, b = rng.choice(pairs)                                # parallel edge (or its reverse)
+                if rng.random() < 0.4:
+                    a, b = b, a
+            else:
+                a, b = rng.sample(ids, 2)
+                if ncomp == 2 and (a % 2) != (b % 2):
+                    b = rng.choice([i for i in ids if i % 2 == a % 2])  # keep the components apart
+            pairs.append((a, b))
+            def end(i):
+                x, y = nodes[i]
+                if merged and rng.random() < 0.5:                       # digitised separately: ends near the node, not on it
+                    m = rng.choice([0.01, 0.05, 0.2, 0.6])
+                    return [round(x + rng.uniform(-m, m), 3), round(y + rng.uniform(-m, m), 3)]
+                return [x, y]
+            pa, pb = end(a), end(b)
+            nv = rng.choice([0, 0, 1, 1, 2, 3, 5, 8, 11])
+            if a == b:
+                nv = max(nv, 2)
+            g = [pa]
+            for j in range(nv):
+                t = (j + 1) / (nv + 1)
+                bx, by = pa[0] + t * (pb[0] - pa[0]), pa[1] + t * (pb[1] - pa[1])
+                amp = rng.choice([0.0, 0.5, 1.5, 3.0]) if a != b else rng.choice([1.5, 3.0])
+                v = [bx + rng.uniform(-amp, amp), by + rng.uniform(-amp, amp)]
+                v = [round(v[0], 2), round(v[1], 2)] if dec else [round(v[0] * 2) / 2, round(v[1] * 2) / 2]
+                g.append(v)
+            g.append(pb)
+            if rng.random() < 0.2:                                      # repeated vertices (zero-length segments)
+                j = rng.randrange(len(g))
+                g = g[:j + 1] + [list(g[j])] * rng.choice([1, 1, 2]) + g[j + 1:]
+            if len({tuple(v) for v in g}) == 1:
+                g = [g[0], [g[0][0] + 1.0, g[0][1] + 0.5]] + g[1:]      # (zero-length edges are made below, on purpose)
+            edges.append({"s": a, "t": b, "g": [[float(x), float(y)] for x, y in g], "o": rng.choice([0, 0, 0, 1, -1])})
+        zero = None
+        if rng.random() < 0.12:
+            # a zero-length edge (all its vertices coincide). Where it can become a candidate mapOnNetwork raises
+            # UnboundLocalError (class zero-length-edge-unbound); while that class is not a listed finding the edge is put
+            # where no observation comes (far corner), so that it still takes an edge number and a place in the index
+            i = rng.choice(ids)
+            pos = list(nodes[i]) if "zero-length-edge-unbound" in self.listed else [-60.0, -60.0 - rng.randint(0, 5)]
+            zero = {"s": i if "zero-length-edge-unbound" in self.listed else 77, "t": 78, "g": [[float(pos[0]), float(pos[1])]] * rng.choice([2, 3]), "o": 0}
+            edges.insert(rng.randrange(len(edges) + 1), zero)
+        eids = rng.sample(range(1, 90), len(edges))
+        for e, i in zip(edges, eids):
+            e["id"] = i
+        via = rng.choice(["direct", "direct", "table", "reader", "late"])
+        late = rng.randint(1, max(1, len(edges) - 1))
+        res, margin, ax = self.index_params(rng, edges, upto=max(1, len(edges) - late) if via == "late" else None)
+        radius = rng.choice([0.5, 1.0, 2.0, 3.0, 5.5, 10.0])
+        live = self.live_edges(edges)
+        track = self.gen_track(rng, "decimal" if dec else "grid", live, radius, ax, short=rng.random() < 0.3)
+        case = {"kind": "net", "stream": "real", "edges": edges, "res": res, "margin": margin, "track": track,
+                "radius": radius, "noise": rng.choice([1.0, 5.0, 50.0])}
+        if via == "table":
+            case["nodes"] = {str(i): [float(nodes[i][0]), float(nodes[i][1])] for i in ids if rng.random() < 0.8}
+        if via == "late":
+            case["late"] = late
+        if via in ("direct", "table", "late") and rng.random() < 0.3:
+            case["strids"] = True
+        if via != "direct":
+            case["via"] = via
+        return case
+
+    def live_edges(self, edges):
+        """the edges observations are generated around: those that have a length and — while the class
+        zero-length-edge-unbound is not a listed finding — are not next to a zero-length edge"""
+        zs = [e["g"][0] for e in edges if len({tuple(p) for p in e["g"]}) == 1]
+        live = [e for e in edges if len({tuple(p) for p in e["g"]}) > 1]
+        if zs and "zero-length-edge-unbound" not in self.listed:
+            live = [e for e in live if all(math.hypot(p[0] - z[0], p[1] - z[1]) > 30.0 for p in e["g"] for z in zs)] or live[:0]
+        return live or [{"g": [[200.0, 200.0], [203.0, 204.0]]}]
+
+    def gen_track(self, rng, stream, edges, radius, ax, home=None, avoid_vertical=False, short=False):
         """1..7 observations on / near / far from / outside the network; `home` = edges the track stays around"""
         track = []
-        for _ in range(rng.randint(1, 7)):
+        for _ in range(rng.randint(1, 2) if short else rng.randint(1, 7)):
             e = rng.choice(home if home else edges)
             i = rng.randrange(len(e["g"]) - 1)
             (x1, y1), (x2, y2) = e["g"][i], e["g"][i + 1]
@@ -203,8 +315,11 @@ class P(Prop):
         """several mapOnNetwork calls on the SAME network / index objects: collections of 2..3 tracks that are not
         co-located, tracks matched again in a later call (their obs_noise / hmm_* columns already exist), user
         features with those names, radii and noise changing from call to call"""
-        base = self.random_case(rng, stream)
+        base = self.real_case(rng) if stream == "real" else self.random_case(rng, stream)
         edges = base["edges"]
+        if stream == "real":
+            edges = self.live_edges(edges)
+            stream = "decimal"
         xs = [p[0] for e in edges for p in e["g"]]
         ax = max(xs) - min(xs)
         ntr = rng.randint(2, 4)
@@ -225,13 +340,30 @@ class P(Prop):
                           "noise": rng.choice([1.0, 5.0, 50.0]), "bare": m == 1 and rng.random() < 0.6})
         if rng.random() < 0.3:
             calls.reverse()
+        for c in calls:                         # the other arguments of the front end
+            r = rng.random()
+            if r < 0.15:
+                c["tc"] = rng.choice([1.0, 10, 200.0])
+            elif r < 0.25:
+                c["debug"] = True
+            elif r < 0.32:
+                c["verbose"] = True
+            elif r < 0.40:
+                c["positional"] = True
+                c["tc"] = rng.choice([5, 10])
+            elif r < 0.50 and not c["bare"]:
+                c["form"] = "list"
         pre = {}
         for k in range(ntr):
             if rng.random() < 0.25:
                 pre[str(k)] = rng.choice([{"obs_noise": 3.0}, {"hmm_inference": 0.0}, {"hmm_cost": 0.0, "speed": 1.5},
                                           {"speed": 2.5}, {"obs_noise": 20.0, "hmm_inference": 0.0, "hmm_cost": 0.0}])
-        return {"kind": "session", "stream": "session-" + stream, "edges": edges, "res": base["res"], "margin": base["margin"],
-                "tracks": tracks, "calls": calls, "pre": pre}
+        out = {"kind": "session", "stream": "session-" + base["stream"], "edges": base["edges"], "res": base["res"], "margin": base["margin"],
+               "tracks": tracks, "calls": calls, "pre": pre}
+        for k in ("via", "nodes", "late", "strids"):
+            if k in base:
+                out[k] = base[k]
+        return out
 
     @staticmethod
     def as_session(case):
@@ -251,7 +383,25 @@ class P(Prop):
         for c in S["calls"]:
             rematch = rematch or any(t in seen for t in c["t"])
             seen.update(c["t"])
+        ends = {}
+        gap = False
+        for e in case["edges"]:
+            for nid, p in ((e["s"], e["g"][0]), (e["t"], e["g"][-1])):
+                q = (case.get("nodes") or {}).get(str(nid)) if case.get("via") == "table" else None
+                q = ends.setdefault(nid, q or p)
+                gap = gap or list(q) != list(p)
+        pairs = [frozenset((e["s"], e["t"])) for e in case["edges"]]
+        shape = "".join(sorted(set(
+            (["L"] if any(e["s"] == e["t"] for e in case["edges"]) else []) +
+            (["P"] if len(set(pairs)) < len(pairs) else []) +
+            (["1"] if any(e.get("o", 0) != 0 for e in case["edges"]) else []) +
+            (["Z"] if any(len({tuple(p) for p in e["g"]}) == 1 for e in case["edges"]) else []) +
+            (["R"] if any(e["g"][i] == e["g"][i + 1] for e in case["edges"] for i in range(len(e["g"]) - 1)) else []) +
+            (["M"] if max(len(e["g"]) for e in case["edges"]) >= 6 else []))))
         return {"kind": case["kind"], "stream": case.get("stream", "?"), "edges": len(case["edges"]),
+                "via": case.get("via", "direct") + ("+strids" if case.get("strids") else ""), "node_gap": gap, "shape": shape,
+                "args": "".join(sorted(set("".join(("t" if "tc" in c else "") + ("d" if c.get("debug") else "") + ("v" if c.get("verbose") else "") +
+                                                        ("p" if c.get("positional") else "") + ("l" if c.get("form") == "list" else "") for c in S["calls"])))),
                 "obs": sum(len(t) for t in S["tracks"]), "calls": len(S["calls"]),
                 "max_tracks_per_call": max(len(c["t"]) for c in S["calls"]), "rematch": rematch, "pre_features": bool(S.get("pre")),
                 "orient": "".join(sorted(orient)), "multi_vertex": any(len(e["g"]) > 2 for e in case["edges"])}
@@ -269,20 +419,92 @@ class P(Prop):
         return False
 
     # ------------------------------------------------------------------ implementation
-    def build(self, case):
+    def edge_track(self, e):
         T = self.tl
-        net = T["Network"]()
-        for e in case["edges"]:
-            tr = T["Track"]([T["Obs"](T["E"](x, y, 0), T["ObsTime"]()) for x, y in e["g"]])
-            T["curv"](tr)
-            ed = T["Edge"](e["id"], tr)
-            ed.orientation = T["Edge"].DOUBLE_SENS
-            ed.weight = tr.length()
-            net.addEdge(ed, T["Node"](e["s"], tr.getFirstObs().position), T["Node"](e["t"], tr.getLastObs().position))
-        si = T["SI"](net, resolution=None if case["res"] is None else tuple(case["res"]), margin=case["margin"], verbose=False)
-        net.spatial_index = si
+        tr = T["Track"]([T["Obs"](T["E"](x, y, 0), T["ObsTime"]()) for x, y in e["g"]])
+        T["curv"](tr)
+        return tr
+
+    def add_edge(self, net, e, case):
+        """one edge the way hand-written builders (test/algo/test_mapping.py) and NetworkReader do it: computeAbsCurv on the
+        geometry, then Edge, then addEdge with nodes made from the end positions of the geometry (`via` = direct), or from a
+        separate node table (`via` = table: the node coordinates are their own objects and may differ from the end vertices)"""
+        T = self.tl
+        tr = self.edge_track(e)
+        conv = str if case.get("strids") else (lambda v: v)
+        ed = T["Edge"](conv(e["id"]), tr)
+        ed.orientation = e.get("o", 0)
+        ed.weight = tr.length()
+        tab = case.get("nodes") or {}
+        def node(nid, pos):
+            if case.get("via") == "table" and str(nid) in tab:
+                return T["Node"](conv(nid), T["E"](tab[str(nid)][0], tab[str(nid)][1], 0))
+            return T["Node"](conv(nid), pos)
+        net.addEdge(ed, node(e["s"], tr.getFirstObs().position), node(e["t"], tr.getLastObs().position))
+
+    def build(self, case):
+        """the network and its spatial index, through one of the construction paths (`via`):
+        direct / table : Network.addEdge edge by edge, index built on the complete network
+        reader         : the edges written as a CSV file (WKT geometries, ids, orientation) and read with NetworkReader.readFromFile
+        late           : index built on the first edges, attached to the network, the other edges added afterwards
+                         (Network.addEdge then registers them in the index itself)"""
+        T = self.tl
+        via = case.get("via", "direct")
+        si_args = dict(resolution=None if case["res"] is None else tuple(case["res"]), margin=case["margin"], verbose=False)
+        if via == "reader":
+            fmt = T["NF"]({"name": "c10", "pos_edge_id": 0, "pos_source": 1, "pos_target": 2, "pos_wkt": 3, "pos_direction": 4,
+                           "separator": ";", "header": 1, "srid": "ENU"})
+            with tempfile.TemporaryDirectory() as tmp:
+                path = os.path.join(tmp, "network.csv")
+                with open(path, "w") as fh:
+                    fh.write("edge;source;target;wkt;direction\n")
+                    for e in case["edges"]:
+                        fh.write("%s;%s;%s;LINESTRING(%s);%d\n" % (e["id"], e["s"], e["t"], ", ".join("%r %r" % (float(x), float(y)) for x, y in e["g"]), e.get("o", 0)))
+                net = T["NR"].readFromFile(path, fmt, verbose=False)
+            net.spatial_index = T["SI"](net, **si_args)
+        elif via == "late":
+            net = T["Network"]()
+            m = max(1, len(case["edges"]) - int(case.get("late", 1)))
+            for e in case["edges"][:m]:
+                self.add_edge(net, e, case)
+            net.spatial_index = T["SI"](net, **si_args)
+            for e in case["edges"][m:]:
+                self.add_edge(net, e, case)
+        else:
+            net = T["Network"]()
+            for e in case["edges"]:
+                self.add_edge(net, e, case)
+            net.spatial_index = T["SI"](net, **si_args)
         net.prepare(verbose=False)
         return net
+
+    @staticmethod
+    def net_geoms(net):
+        """the edge geometries AS THEY ARE in the network, by edge number (what `hmm_inference` refers to)"""
+        out = []
+        for k in range(net.getNumberOfEdges()):
+            g = net.EDGES[net.getEdgeId(k)].geom
+            out.append([[float(o.position.getX()), float(o.position.getY())] for o in g])
+        return out
+
+    @staticmethod
+    def net_state(net):
+        """what the construction left: geometries and abs_curv columns by edge number, node table in registration order,
+        grid parameters of the index"""
+        curv = []
+        for k in range(net.getNumberOfEdges()):
+            g = net.EDGES[net.getEdgeId(k)].geom
+            try:
+                curv.append([float(g["abs_curv", i]) for i in range(len(g))])
+            except BaseException as e:
+                if isinstance(e, KeyboardInterrupt):
+                    raise
+                curv.append(None)
+        si = net.spatial_index
+        return {"geoms": P.net_geoms(net), "curv": curv,
+                "nodes": [[str(i), float(net.NODES[i].coord.getX()), float(net.NODES[i].coord.getY())] for i in net.getIndexNodes()],
+                "ends": [[str(net.EDGES[net.getEdgeId(k)].source.id), str(net.EDGES[net.getEdgeId(k)].target.id)] for k in range(net.getNumberOfEdges())],
+                "grid": [float(si.xmin), float(si.xmax), float(si.ymin), float(si.ymax), int(si.csize), int(si.lsize)]}
 
     @staticmethod
     def state_row(s):
@@ -309,6 +531,7 @@ class P(Prop):
                 raise
             self._cache[key] = []
             return {"invalid": "network or spatial index cannot be built: %s %s" % (err_kind(e), str(e)[:100])}
+        net0 = self.net_state(net)
         tracks = []
         for ti, pts in enumerate(S["tracks"]):
             trk = T["Track"]([T["Obs"](T["E"](x, y, 0), T["ObsTime"].readUnixTime(1000 * (ti + 1) + 10 * i)) for i, (x, y) in enumerate(pts)])
@@ -345,14 +568,38 @@ class P(Prop):
                 objs = [tracks[i] for i in call["t"]]
                 before = [self.snap_track(o) for o in objs]
                 del captured[:], snaps[:], done[:]
-                arg = objs[0] if (call.get("bare") and len(objs) == 1) else self.tl["TC"](objs)
+                if call.get("bare") and len(objs) == 1:
+                    arg = objs[0]
+                elif call.get("form") == "list":
+                    arg = list(objs)                      # `for track in tracks` accepts any iterable of tracks
+                else:
+                    arg = self.tl["TC"](objs)
+                kw = dict(gps_noise=call["noise"], search_radius=call["radius"])
+                if "tc" in call:
+                    kw["transition_cost"] = call["tc"]
+                if call.get("verbose"):
+                    kw["verbose"] = True
                 err = None
+                cwd = os.getcwd()
+                tmp = None
                 try:
-                    mp.mapOnNetwork(arg, net, gps_noise=call["noise"], search_radius=call["radius"])
+                    if call.get("debug"):                 # debug=True appends to ./observation.dat
+                        tmp = tempfile.TemporaryDirectory()
+                        os.chdir(tmp.name)
+                        kw["debug"] = True
+                    if call.get("positional"):
+                        mp.mapOnNetwork(arg, net, call["noise"], call.get("tc", 10), call["radius"])
+                    else:
+                        mp.mapOnNetwork(arg, net, **kw)
                 except BaseException as e:
                     if isinstance(e, KeyboardInterrupt):
                         raise
                     err = {"err": err_kind(e), "detail": str(e)[:200]}
+                finally:
+                    os.chdir(cwd)
+                    if tmp is not None:
+                        tmp.cleanup()
+                geoms = self.net_geoms(net)
                 touts, pos = [], 0
                 for j, o in enumerate(objs):
                     n = o.size()
@@ -369,7 +616,7 @@ class P(Prop):
                         after = self.snap_track(o)
                         touts.append({"ti": call["t"][j], "cand": c, "states": [[self.state_row(st) for st in L] for L in states],
                                       "idx": idx, "inf": inf, "pos_after": after["pos"], "t_after": after["t"], "n_after": after["n"],
-                                      "features": after["features"], "before": before[j], "nedges": net.getNumberOfEdges()})
+                                      "features": after["features"], "before": before[j], "nedges": net.getNumberOfEdges(), "geoms": geoms})
                     elif err and j == len(done):
                         states = snaps[j] if j < len(snaps) and snaps[j] is not None else (getattr(mp, "STATES", None) or [])
                         if j < len(snaps) and snaps[j] is None:
@@ -377,7 +624,7 @@ class P(Prop):
                         t = {"ti": call["t"][j], "cand": c, "states": [[self.state_row(st) for st in L] for L in states]}
                         t.update(err)
                         touts.append(t)
-                co = {"tracks": touts, "global_states_len": len(getattr(mp, "STATES", None) or [])}
+                co = {"tracks": touts, "global_states_len": len(getattr(mp, "STATES", None) or []), "geoms": geoms}
                 if err:
                     co.update(err)
                 calls_out.append(co)
@@ -388,7 +635,7 @@ class P(Prop):
             if saved is not None:
                 mp.STATES = saved
         self._cache[key] = [(ci, t) for ci, co in enumerate(calls_out) for t in co["tracks"] if t["cand"]]
-        out = {"calls": calls_out}
+        out = {"calls": calls_out, "net": net0}
         if calls_out and "err" in calls_out[-1]:
             out["err"] = calls_out[-1]["err"]
             out["detail"] = calls_out[-1].get("detail")
@@ -491,9 +738,13 @@ class P(Prop):
         for v in (px, py, d0, d1):
             if v != v or math.isinf(v):
                 return "observation %d: non-finite state %s" % (k, row)
-        if not (0 <= elem < len(case["edges"])):
-            return "observation %d: edge number %s does not exist (0..%d)" % (k, elem, len(case["edges"]) - 1)
-        g = case["edges"][elem]["g"]
+        # the geometry of edge number `elem` AS IT IS in the network (Edge.geom read back after the call), not as it was given
+        geoms = case["geoms"]
+        if not (0 <= elem < len(geoms)):
+            return "observation %d: edge number %s does not exist (0..%d)" % (k, elem, len(geoms) - 1)
+        g = geoms[elem]
+        if len(g) < 2:
+            return "observation %d: edge number %d has no geometry to lie on (%d vertices)" % (k, elem, len(g))
         X, Y = [p[0] for p in g], [p[1] for p in g]
         segs = segments(X, Y)
         sc = max([1.0] + [abs(v) for v in X + Y + [q[0], q[1]]])
@@ -547,7 +798,8 @@ class P(Prop):
         S = self.as_session(case)
         for ci, co in enumerate(out["calls"]):
             for t in co["tracks"]:
-                yield ci, co, {"edges": case["edges"], "track": S["tracks"][t["ti"]], "radius": S["calls"][ci]["radius"]}, t
+                yield ci, co, {"edges": case["edges"], "track": S["tracks"][t["ti"]], "radius": S["calls"][ci]["radius"],
+                               "geoms": t.get("geoms") or co.get("geoms") or [e["g"] for e in case["edges"]]}, t
 
     def spec(self, case, out):
         if "invalid" in out:
